@@ -1,6 +1,7 @@
 import Falcon.Lemmas.BabaiAlg
 import Falcon.Model.Zp
 import Falcon.Lemmas.ZpZMod
+import Falcon.Lemmas.ZpProduct
 
 /-!
 # C17 — Babai size reduction preserves the NTRU equation; the 32-bit path multiplies exactly
@@ -188,6 +189,37 @@ theorem zp_ntt_mul_exact (d : Nat) (hd : d ≤ 10) (hd1 : 1 ≤ d) (a b : List N
     products whenever their coefficients are below p/2 in magnitude (`balanced_lift_exact`): the residue vector is
     the negacyclic product mod p, and the balanced lift of a residue of x with |x| ≤ 536877056 is x -/
 example : Zp.intt 1 (Zp.hadamard (Zp.ntt 1 [3, 5]) (Zp.ntt 1 [7, 11])) = .ok (Zp.negacyc 2 [3, 5] [7, 11]) := by decide
+
+/-- **the 32-bit path multiplies exactly inside its window**: for k, f with entries strictly between −p and p whose
+    integer product k⋆f has all coefficients within ±(p−1)/2, the model of what `babai_reduce_i32` does — `U32Field::new`
+    on every coefficient, forward transforms, pointwise product, inverse transform, `balanced_value` — returns exactly
+    k⋆f over ℤ, without overflow, in both build modes, for every n = 2…1024 -/
+theorem zp_product_is_the_integer_product (chk : Bool) (d : Nat) (hd : d ≤ 10) (hd1 : 1 ≤ d) (k f : List Int)
+    (lk : k.length = 2 ^ d) (lf : f.length = 2 ^ d)
+    (hk : ∀ x ∈ k, -1073754113 < x ∧ x < 1073754113) (hf : ∀ x ∈ f, -1073754113 < x ∧ x < 1073754113)
+    (hb : ∀ x ∈ RingZ.negacyc (2 ^ d) k f, -536877056 ≤ x ∧ x ≤ 536877056) :
+    ∃ kp fp r, k.mapM (Zp.new chk) = .ok kp ∧ f.mapM (Zp.new chk) = .ok fp ∧
+      Zp.intt d (Zp.hadamard (Zp.ntt d kp) (Zp.ntt d fp)) = .ok r ∧
+      r.mapM (Zp.balanced chk) = .ok (RingZ.negacyc (2 ^ d) k f) := by
+  have hn : 0 < 2 ^ d := Nat.pow_pos (by decide)
+  refine ⟨Zp.toZp k, Zp.toZp f, Zp.toZp (RingZ.negacyc (2 ^ d) k f), ?_, ?_, ?_, ?_⟩
+  · exact Zp.mapM_ok _ _ k (fun x hx => Zp.new_exact chk x (hk x hx).1 (hk x hx).2)
+  · exact Zp.mapM_ok _ _ f (fun x hx => Zp.new_exact chk x (hf x hx).1 (hf x hx).2)
+  · rw [zp_ntt_mul_exact d hd hd1 _ _ (by simp [Zp.toZp, lk]) (by simp [Zp.toZp, lf]), Zp.negacyc_toZp _ hn k f lf]
+  · have := Zp.mapM_ok (Zp.balanced chk)
+      (fun (a : Nat) => if (a : Int) > 536877056 then (a : Int) - 1073754113 else (a : Int))
+      (Zp.toZp (RingZ.negacyc (2 ^ d) k f)) (fun a ha => Zp.balanced_exact chk a (Zp.toZp_lt _ a ha))
+    rw [this]
+    refine congrArg Res.ok ?_
+    simp only [Zp.toZp, List.map_map]
+    conv => rhs; rw [← List.map_id (RingZ.negacyc (2 ^ d) k f)]
+    apply List.map_congr_left
+    intro x hx
+    have hlift := balanced_lift_exact x (hb x hx)
+    simp only [Function.comp, id] at hlift ⊢
+    have h0 : 0 ≤ x % 1073754113 := Int.emod_nonneg x (by decide)
+    rw [Int.toNat_of_nonneg h0]
+    exact hlift
 
 end ZpNtt
 
